@@ -189,6 +189,7 @@ End Core.
 (* the arguments *)
 Record lz_init_vecs := MkInit {
   i_dtype_ok : bool;      (* dtype == init_vecs.dtype *)
+  i_onedim : bool;        (* init_vecs.dim() == 1 (then shape[:-2] is empty and size(-2) / dim=-2 raise IndexError) *)
   i_batch : seq nat;      (* init_vecs.shape[:-2] *)
   i_n : nat;              (* init_vecs.size(-2) *)
   i_nvec : nat;           (* init_vecs.size(-1) *)
@@ -227,8 +228,10 @@ Definition lz_start (g : lz_args) : res (nat * cols) :=
     if g_debug g then                                                      (* 35 *)
       if ~~ i_dtype_ok iv then Err ErrDtype                                (* 36 *)
       else if g_batch g != i_batch iv then Err ErrBatchShape               (* 44 *)
+      else if i_onedim iv then Err ErrIndex                                (* 48: init_vecs.size(-2) of a 1-D tensor *)
       else if g_n g != i_n iv then Err ErrMatrixShape                      (* 48 *)
       else Ok (i_nvec iv, i_cols iv)
+    else if i_onedim iv then Err ErrIndex                                  (* 80: torch.norm(init_vecs, 2, dim=-2) *)
     else Ok (i_nvec iv, i_cols iv)                                         (* 53 *)
   else
     (* 31-32: torch.randn(n, num_init_vecs).expand( *batch_shape, n, num_init_vecs) *)
@@ -355,6 +358,13 @@ Definition diag_forward_shape (lead : seq nat) (n m : nat) : seq nat * seq nat :
 
 (* _postprocess_lanczos_root_inv_decomp line 221: inv_roots[best_solve_index] has shape ( *batch, n, k ); .squeeze(0) *)
 Definition postprocess_shape (batch : seq nat) (n k : nat) : seq nat := squeeze0 (batch ++ [:: n; k]).
+
+(* root_inv_decomposition (operators/_linear_operator.py lines 2237-2254): does the argument check on the shape of
+   initial_vectors raise RuntimeError?  [batch], [n]: shape of the operator; [ivs] = initial_vectors.shape *)
+Definition root_inv_guard_raises (batch : seq nat) (n : nat) (ivs : seq nat) : bool :=
+  if (size batch + 2 == 2) && (size ivs == 1) then n != prodn ivs                    (* 2238-2244: numel *)
+  else if size batch + 2 != size ivs then true                                        (* 2245-2249 *)
+  else (batch != take (size ivs - 2) ivs) || (n != nth 0 ivs (size ivs - 2)).         (* 2250-2254 *)
 
 (* what lanczos_tridiag hands over (theorem C09_trim_shapes_any_arith) and what the operator is expected to return *)
 Definition lanczos_lead (nprobe : nat) (batch : seq nat) : seq nat :=
